@@ -84,7 +84,11 @@ func (s shadow) pickPath(r *Rng) (string, string) {
 			if len(files) > 0 {
 				f := files[r.Intn(len(files))]
 				if depthOf(f) < nsDepth {
-					return joinP(f, name), "belowfile"
+					q := joinP(f, name)
+					if r.Intn(3) == 0 { // two (never existing) elements below the file: the nearest existing ancestor is not the parent
+						q = joinP(q, nsNames[r.Intn(len(nsNames))])
+					}
+					return q, "belowfile"
 				}
 			}
 		case 4: // below a missing directory
